@@ -312,6 +312,15 @@ func vhC16(pairs bool) {
 		if m1 == vmNilElement || m2 == vmNilElement || m1 == vmEmptyChildren || m2 == vmEmptyChildren {
 			api.Assume(m2 == vmNone || m1 == vmNone) // structural mutations are combined with nothing (object lists change)
 		}
+		// the second mutation must not repair the first one (it is applied on top of it): a fresh valid key over a bad
+		// one, or the action plugin written over an unknown/blank plugin name of a check action. The reverse orders
+		// are explored and cover the combinations.
+		if m2 == vmValidKeys && (m1 == vmKeyNotV7 || m1 == vmKeyDuplicate) {
+			api.Assume(false)
+		}
+		if m2 == vmCheckUsesActionPlugin && (m1 == vmPluginUnknown || m1 == vmPluginBlank) {
+			api.Assume(false)
+		}
 		if !vhMutate(o, m2, reg, "m2.") {
 			api.Assume(false)
 		}
